@@ -22,6 +22,38 @@ from .symnp import FElem, SArr
 from .symx import SymBool, SymInt, SymReal, Unsupported
 
 
+
+class _fresh_module_state:
+    """Every world run starts from the import-time state of toasty's modules: module-level containers (caches a change
+    may introduce) are snapshotted before a run and restored after it, so state kept BETWEEN calls inside one run is
+    seen, but nothing leaks from the symbolic run into the real-numpy replay (or into the next path)."""
+
+    def __enter__(self):
+        import sys
+        self.saved = []
+        for name, mod in list(sys.modules.items()):
+            if mod is None or not (name == "toasty" or name.startswith("toasty.")):
+                continue
+            for k, v in list(vars(mod).items()):
+                if k.startswith("__"):
+                    continue
+                if isinstance(v, (dict, list, set)):
+                    self.saved.append((v, type(v)(v)))
+        return self
+
+    def __exit__(self, *a):
+        for obj, copy_ in self.saved:
+            try:
+                if isinstance(obj, list):
+                    obj[:] = copy_
+                else:
+                    obj.clear()
+                    obj.update(copy_)
+            except Exception:
+                pass
+        return False
+
+
 class Claim:
     def __init__(self, name, term, got=None, want=None, probe=None, sig=None, what=None, ref=None):
         self.ref = ref            # optional independent numpy reference: (key, idx) / callable on the real outs
@@ -483,7 +515,8 @@ def run_case(run, case, deadline=None):
     def body(c):
         w = SymWorld(c)
         try:
-            outs = case.run(w)
+            with _fresh_module_state():
+                outs = case.run(w)
         except (symx.PathAbort, symx.PathCap, Unsupported):
             raise
         except Exception as e:           # the real code raised on this symbolic path: a candidate violation
@@ -662,7 +695,8 @@ def _small_model(c, w, cl, m):
 def _real_run(case, m):
     rw = RealWorld(m)
     try:
-        outs = case.run(rw)
+        with _fresh_module_state():
+            outs = case.run(rw)
         return rw, outs, None
     except Unsupported:
         raise
@@ -852,7 +886,8 @@ def replay_from_file(P, case_name, base):
     fw = FileWorld(meta["scalars"], arrays)
     print("property violation recorded as:", meta["what"])
     try:
-        outs = case.run(fw)
+        with _fresh_module_state():
+            outs = case.run(fw)
     except Exception as e:
         print("REPRODUCED: real code raised %s: %s" % (type(e).__name__, e))
         return 1
